@@ -245,6 +245,10 @@ def classify(g: Guard, fn, graph: Graph) -> List[str]:
         op, l, r = t.ops[0], t.left, t.comparators[0]
         ll, lr = len_role(l, env), len_role(r, env)
         eq_fail = (isinstance(op, ast.Eq) and neg) or (isinstance(op, ast.NotEq) and not neg)     # raises when the sides differ
+        if g.unconditional() and {ll, lr} == {"state_model", "STATE"} and isinstance(op, (ast.Lt, ast.Gt, ast.LtE, ast.GtE)):
+            out.append("weak|F2:size|the state-model size is only compared one-sidedly (`%s`): extra or missing update expressions pass" % ast.unparse(t))
+        if eq_fail and g.unconditional() and {ll, lr} == {"calibration_map", "CALIB"}:
+            out.append("weak|F3|only the number of calibration values is compared (`%s`): a map naming the wrong symbols passes" % ast.unparse(t))
         if eq_fail and g.unconditional():
             if {ll, lr} == {"state_model", "STATE"}:
                 out.append("F2:size")
@@ -301,6 +305,8 @@ def classify(g: Guard, fn, graph: Graph) -> List[str]:
             allowed = t.args[0]
             src = env.get(allowed.id) if isinstance(allowed, ast.Name) else allowed
             roles = {role_of(n) for n in ast.walk(src) if isinstance(n, (ast.Attribute, ast.Name))} if src is not None else set()
+            if {"STATE", "CALIB"} <= roles and "CONTROL" in roles and len(loops) >= 2:
+                out.append("weak|F5|the allowed symbol set of sensor models includes the controls")
             if {"STATE", "CALIB"} <= roles and "CONTROL" not in roles and len(loops) >= 2:
                 if _raise_immediate(g) or _accumulate_monotone(g, fn):
                     out.append("F5")
@@ -384,13 +390,18 @@ def run(ctx: core.Ctx) -> int:
     ui_cells: Dict[str, Guard] = {}
     all_guards = 0
     ui_unclassified = []
+    ui_weak = {}
     for g in guards_of("ui_model", "Model.__init__", uim):
         all_guards += 1
         cs = classify(g, uim, graph)
         if not cs:
             ui_unclassified.append((g, uim))
         for c in cs:
-            ui_cells.setdefault(c, g)
+            if c.startswith("weak|"):
+                _, cellname, why_ = c.split("|", 2)
+                ui_weak.setdefault(cellname, (why_, g))
+            else:
+                ui_cells.setdefault(c, g)
     need_cells = {"python.compile": ["F1:CALIB/STATE", "F1:CONTROL/STATE", "F1:CALIB/CONTROL", "F2:size", "F2:keys", "F3"],
                   "cpp.compile": ["F1:CALIB/STATE", "F1:CONTROL/STATE", "F1:CALIB/CONTROL", "F2:size", "F2:keys", "F3"]}
     ekf = ["F1:CALIB/STATE", "F1:CONTROL/STATE", "F1:CALIB/CONTROL", "F2:size", "F2:keys", "F3", "F4a", "F4b", "F4c", "F4d", "F5", "F6:keys", "F6:size", "F6:names"]
@@ -403,6 +414,7 @@ def run(ctx: core.Ctx) -> int:
         ctx.functions.append(ent)
         cells: Dict[str, Guard] = dict(ui_cells)
         erasable = []
+        weak = dict(ui_weak)
         unclassified = list(ui_unclassified)
         graph.generator_cls = "ExtendedKalmanFilter" if name.endswith("_ekf") else "Model"
         for m, q, f in graph.reach(mod, name):
@@ -412,6 +424,10 @@ def run(ctx: core.Ctx) -> int:
                 if not cs:
                     unclassified.append((g, f))
                 for c in cs:
+                    if c.startswith("weak|"):
+                        _, cellname, why_ = c.split("|", 2)
+                        weak.setdefault(cellname, (why_, g))
+                        continue
                     if c == "F5:erasable":
                         erasable.append(g)
                     elif c == "F4d:pairs-allowed":
@@ -433,6 +449,11 @@ def run(ctx: core.Ctx) -> int:
         for c in need_cells[ent]:
             g = cells.get(c)
             row[c] = f"{FILES[g.mod]}:{g.qual}:{g.line}" if g else None
+            if g is None and c in weak:
+                why, wg = weak[c]
+                ctx.oblige("VALID-MATRIX", ent, f"{c}: only a weaker guard", False, file=FILES[wg.mod], func=wg.qual, construct=f"cell {c} weak {ent}",
+                           msg=f"{ent}: fault class {c} ({_explain(c)}) is only met by a weaker guard at {FILES[wg.mod]}:{wg.line}: {why}", line=wg.line)
+                continue
             if g is None:
                 # a guard about this fault class exists but its form is outside the recognisers: that is an analysis limit, not a finding
                 kw = {"F1": ("isdisjoint", "intersection", "&"), "F2": ("state_model",), "F3": ("calibration",), "F4a": ("process_noise",),
@@ -441,6 +462,12 @@ def run(ctx: core.Ctx) -> int:
                 near = []
                 for ug, uf in unclassified:
                     e = expand(ug, uf)
+                    tt = e.test
+                    while isinstance(tt, ast.UnaryOp):
+                        tt = tt.operand
+                    if isinstance(tt, ast.Call) and isinstance(tt.func, ast.Name) and tt.func.id == "isinstance" and len(tt.args) == 2 \
+                            and ast.unparse(tt.args[1]) in ("dict", "list", "set", "Config", "float", "int", "str", "(dict, list)"):
+                        continue        # a container-type assertion says nothing about the fault classes
                     txt = ast.unparse(e.test) + " " + " ".join(ast.unparse(v) for k2, v in local_env(uf).items()
                                                                 if any(isinstance(n, ast.Name) and n.id == k2 for n in ast.walk(ug.test)))
                     if any(k in txt for k in kw):
